@@ -8,7 +8,7 @@ from harness.props import graph_common as gc
 ID = 'C16'
 PROPS_FILE = 'Props/Props_C16.v'
 EXTRA_TARGETS = ['Graph/Check.vo']
-CONST_PARTS = ()
+CONST_PARTS = ('srcgraph',)
 
 SPEC = gc.Spec(
     ID, 16,
